@@ -93,6 +93,11 @@ class Build:
         inlined helper survive as address-taken copies; sroa forwards them.  Every other function is frozen
         (optnone) for this stage, so nothing else in the unit changes shape."""
         txt = open(raw).read()
+        # only needed when an inlined helper takes an aggregate by value (clang: coerced scalars or byval copies);
+        # otherwise mem2reg has done everything and the hosts keep their own locals as they are
+        heads = {m.group(1): m.group(0) for m in re.finditer(r'^define [^@\n]*@([A-Za-z0-9_.]+)\([^\n]*\{$', txt, re.M)}
+        if not any(('.coerce' in heads.get(n, '') or 'byval(' in heads.get(n, '')) for n in new):
+            return
         bodies = {}
         for m in re.finditer(r'^define [^@\n]*@([A-Za-z0-9_.]+)\([^\n]*\{$(.*?)^\}$', txt, re.M | re.S):
             bodies[m.group(1)] = m.group(2)
